@@ -120,7 +120,22 @@ Proof. exact crash_exit_is_2. Qed.
 Print Assumptions C11_crash_exit_is_2.
 
 (* ---- 5. the parallel path ------------------------------------------------------------------------------------ *)
+(* worker and future reader re-raise the ValueError family and swallow everything else; the parent re-runs the
+   cross-file rules before finalizing (Gen: par_parent_collects) *)
+Theorem C11_par_run_exact : forall q rules files,
+  all_contained q rules files -> final_safe rules files -> (forall r, In r rules -> wf_rule r) ->
+  fst (run_par q rules files) = spec_run rules files.
+Proof. exact run_par_exact. Qed.
+Print Assumptions C11_par_run_exact.
+
+Theorem C11_par_log : forall q rules files,
+  all_contained q rules files -> final_safe rules files -> (forall r, In r rules -> wf_rule r) ->
+  snd (run_par q rules files) = spec_log rules files ++ spec_log (filter r_cross rules) files.
+Proof. exact run_par_log. Qed.
+Print Assumptions C11_par_log.
+
 Theorem C11_par_isolation : forall q rules files (bad : string -> bool),
+  all_contained q rules files ->
   exists cells cells',
     fst (par_all q rules files) = Ok cells /\
     fst (par_all q rules (filter (fun p => negb (bad p)) files)) = Ok cells' /\
@@ -133,11 +148,17 @@ Theorem C11_par_exact : forall q rules files,
 Proof. exact par_ideal_exact. Qed.
 Print Assumptions C11_par_exact.
 
-Theorem C11_par_escaping_failure_drops_the_whole_file : forall q rules p,
-  (exists r e, In r rules /\ r_res r p = Fail e /\ contained q e = false) ->
-  pf q rules p = map (fun r => (p, r_id r, [])) rules.
-Proof. exact par_file_dropped. Qed.
-Print Assumptions C11_par_escaping_failure_drops_the_whole_file.
+Theorem C11_par_escape_crashes : forall q rules files,
+  (exists r p e, In r rules /\ In p files /\ r_res r p = Fail e /\ contained q e = false) ->
+  exists e', fst (run_par q rules files) = Crashed e'.
+Proof. exact par_escape_crashes. Qed.
+Print Assumptions C11_par_escape_crashes.
+
+Theorem C11_pool_tables : forall e,
+  (value_family e = true -> dispatch worker_handlers e = Some HReraise /\ dispatch future_handlers e = Some HReraise)
+  /\ (value_family e = false -> dispatch worker_handlers e = Some HReturnEmpty).
+Proof. exact (fun e => conj (pool_reraises_value_family e) (pool_swallows_the_rest e)). Qed.
+Print Assumptions C11_pool_tables.
 
 (* ---- 6. the content readers and the parser wrapper ----------------------------------------------------------- *)
 Theorem C11_unreadable_content_is_not_a_failure : forall e,
@@ -200,6 +221,13 @@ Theorem C11_detect_by_extension : forall stem e' ext lang present decodes conten
 Proof. exact detect_by_extension. Qed.
 Print Assumptions C11_detect_by_extension.
 
+Theorem C11_detect_unmapped_ext_is_unknown : forall name present decodes content,
+  shebang_requires_no_ext = true ->
+  assoc (ext_of name) extension_map = None -> ext_of name <> "" ->
+  detect name present decodes content = unknown_language.
+Proof. exact detect_unmapped_ext_is_unknown. Qed.
+Print Assumptions C11_detect_unmapped_ext_is_unknown.
+
 Theorem C11_detect_unknown : forall name present decodes content,
   assoc (ext_of name) extension_map = None ->
   present = false \/ decodes = false \/ prefixb shebang_prefix (first_line content) = false ->
@@ -211,9 +239,9 @@ Print Assumptions C11_detect_unknown.
    all hypotheses hold, the failing pair costs its own cell only, H1 shows it *)
 Definition ex_rules : list rule :=
   [ {| r_id := "nesting"; r_res := fun p => if String.eqb p "deep.py" then Fail ERecursion else Ok [("nesting", p, 3)];
-       r_contrib := fun _ => []; r_final := fun _ => Ok [] |};
+       r_contrib := fun _ => []; r_final := fun _ => Ok []; r_cross := false |};
     {| r_id := "dry"; r_res := fun _ => Ok []; r_contrib := fun p => if String.eqb p "deep.py" then [] else [(p, 7)];
-       r_final := fun s => Ok (map (fun ev : evid => ("dry", fst ev, snd ev)) s) |} ].
+       r_final := fun s => Ok (map (fun ev : evid => ("dry", fst ev, snd ev)) s); r_cross := true |} ].
 Example C11_nonvacuous :
   run ideal ex_rules ["a.py"; "deep.py"; "b.ts"]
   = (Completed [("a.py", "nesting", [("nesting", "a.py", 3)]); ("a.py", "dry", []);
